@@ -67,7 +67,8 @@ func HarnessC13Span() {
 		Attributes: []attribute.KeyValue{attribute.Int64("i", iv), attribute.Float64("f", fv), attribute.String("s", sv), attribute.Bool("b", bv),
 			attribute.Int64Slice("is", []int64{iv}), attribute.StringSlice("ss", []string{sv})},
 		Events:            []tracesdk.Event{{Name: "e", Time: end, Attributes: []attribute.KeyValue{attribute.Int64("x", iv)}, DroppedAttributeCount: dEA}},
-		Links:             []tracesdk.Link{{SpanContext: linkSC, Attributes: []attribute.KeyValue{attribute.Int64("y", iv)}, DroppedAttributeCount: dLA}},
+		Links: []tracesdk.Link{{SpanContext: linkSC, Attributes: []attribute.KeyValue{attribute.Int64("y", iv)}, DroppedAttributeCount: dLA},
+			{SpanContext: trace.NewSpanContext(trace.SpanContextConfig{TraceID: trace.TraceID{7, 7}, SpanID: trace.SpanID{6, 6}})}},
 		Status:            tracesdk.Status{Code: code, Description: "d"},
 		DroppedAttributes: dA, DroppedEvents: dE, DroppedLinks: dL,
 		Resource: resource.NewSchemaless(attribute.String("r", "1")),
@@ -132,8 +133,11 @@ func HarnessC13Span() {
 		vndAssert(s.Events[0].DroppedAttributesCount == c13Clamp(dEA), "event-dropped-attributes-count")
 		vndAssert(len(s.Events[0].Attributes) == 1 && s.Events[0].Attributes[0].Value.GetIntValue() == iv, "event-attributes")
 	}
-	vndAssert(len(s.Links) == 1, "link-encoded")
-	if len(s.Links) == 1 {
+	vndAssert(len(s.Links) == 2, "link-encoded")
+	if len(s.Links) == 2 {
+		// each link keeps its own ids
+		vndAssert(s.Links[1].TraceId[0] == 7 && s.Links[1].TraceId[1] == 7 && s.Links[1].SpanId[0] == 6 && s.Links[1].SpanId[1] == 6, "link-ids")
+		vndAssert(s.Links[0].TraceId[1] == 0 && s.Links[0].SpanId[1] == 0, "link-ids")
 		l := s.Links[0]
 		vndAssert(l.TraceId[0] == 9 && l.SpanId[0] == 8, "link-ids")
 		vndAssert(l.DroppedAttributesCount == c13Clamp(dLA), "link-dropped-attributes-count")
